@@ -89,8 +89,15 @@ class CbFault(Engine):
         def thunk():
             return fn(ops.simple_source(doc, src))
 
+        import time
+        t0 = time.monotonic()
         base, ctx = ops.call(thunk)
         stats.count('baseline_loads')
+        if time.monotonic() - t0 > 1.0:
+            # (yatiml formats the repr of whole sub-trees into log messages: deep
+            # documents cost far more than their Python call count suggests)
+            stats.count('plans_skipped_too_costly')
+            return []
         violations = []
         if base['status'] == 'ok':
             stats.count('baseline_ok')
@@ -143,6 +150,9 @@ class CbFault(Engine):
         else:
             stats.count('plans_with_full_enumeration')
         for i, kind, exc, args in pairs:
+            if self.out_of_time():
+                stats.count('plans_with_enumeration_cut_by_deadline')
+                break
             fault = {'exc': exc, 'args': args, 'kind': kind}
             out, fctx = ops.call(thunk, {i: fault})
             stats.count('faulted_loads')
@@ -207,6 +217,7 @@ class CbFault(Engine):
             'plans_with_full_enumeration': c.get('plans_with_full_enumeration', 0),
             'plans_with_capped_enumeration': c.get('plans_with_capped_enumeration', 0),
             'plans_skipped_too_costly': c.get('plans_skipped_too_costly', 0),
+            'plans_with_enumeration_cut_by_deadline': c.get('plans_with_enumeration_cut_by_deadline', 0),
             'simulated_time': 'not applicable: yatiml reads no clock; logical steps are loads',
             'real_vs_stub': dict(REAL_STUB, **{
                 'callback failures': 'injected at the generated classes\' first statement (stub fault source)',
